@@ -21,9 +21,9 @@ for f in demo_files:
 cmd = f"cargo test -p {crate} --test {demo_name} --offline{features}" if demo_name else None
 res["demo_cmd"] = cmd
 rc1, o1 = sh(cmd); res["demo_with_change"] = "fails" if rc1 != 0 else "PASSES(!)"
-sh("git stash push -- $(git diff --name-only)")
+sh("git diff > SEEDED/.lib.diff && git checkout -- .")          # no git stash: the stash is shared between worktrees
 rc2, o2 = sh(cmd); res["demo_without_change"] = "passes" if rc2 == 0 else "FAILS(!)"
-sh("git stash pop")
+sh("git apply SEEDED/.lib.diff && rm SEEDED/.lib.diff")
 # the unedited suite with the change (demo moved aside)
 for f in demo_files: os.rename(os.path.join(wt, f), os.path.join(wt, f) + ".aside")
 rc3, o3 = sh("cargo test --workspace --no-fail-fast --offline 2>&1 | grep -E '^test result' | awk '{p+=$4; f+=$6} END {print p, f}'")
